@@ -123,6 +123,34 @@ func c15Judge(c *fw.Ctx, fn string, got float64, want2 *big.Rat, tol float64) bo
 	return true
 }
 
+// c15GramExact reports whether the Gram quantities of the two segments
+// (u.u, u.v, v.v, u.w, v.w) and every pairwise product and the differences the
+// closest-approach formulas take of them are exactly representable in float64,
+// i.e. whether a double evaluation of those formulas suffers no cancellation.
+func c15GramExact(a, b, cc, d v3) bool {
+	u, v, w := sub3(b, a), sub3(d, cc), sub3(a, cc)
+	q := []*big.Rat{dot3(u, u), dot3(u, v), dot3(v, v), dot3(u, w), dot3(v, w)}
+	ok := func(x *big.Rat) bool { _, ex := x.Float64(); return ex }
+	for _, x := range q {
+		if !ok(x) {
+			return false
+		}
+	}
+	A, B, C, D, E := q[0], q[1], q[2], q[3], q[4]
+	for _, x := range []*big.Rat{
+		exact.Mul(A, C), exact.Mul(B, B), exact.Mul(B, E), exact.Mul(C, D), exact.Mul(A, E), exact.Mul(B, D),
+		exact.Sub(exact.Mul(A, C), exact.Mul(B, B)),
+		exact.Sub(exact.Mul(B, E), exact.Mul(C, D)),
+		exact.Sub(exact.Mul(A, E), exact.Mul(B, D)),
+		exact.Add(D, B), exact.Sub(E, B), exact.Add(exact.Neg(D), B), exact.Add(E, C),
+	} {
+		if !ok(x) {
+			return false
+		}
+	}
+	return true
+}
+
 func c15Grid(r *fw.Rand) int { return []int{4, 32, 1 << 10, 1 << 20}[r.Intn(4)] }
 
 // 2D: point-segment, perpendicular, point-linestring, segment-segment
@@ -270,7 +298,74 @@ func c15xyz(c *fw.Ctx, idx int) {
 	}
 	var a, b, cc, d [3]float64
 	class := ""
-	switch r.Intn(12) {
+	switch r.Intn(16) {
+	case 14, 15:
+		// nearly parallel segments in general position: a long direction with
+		// full-width components, the second direction differing from a small
+		// multiple of it by a unit-sized deviation; starts anywhere on the grid
+		class = "near-parallel-general"
+		h := g/2 + 1
+		u := [3]float64{rint(r, h), rint(r, h), rint(r, h)}
+		if u == [3]float64{} {
+			u[0] = 1
+		}
+		dev := [3]float64{float64(r.Range(-2, 2)), float64(r.Range(-2, 2)), float64(r.Range(-2, 2))}
+		a = [3]float64{rint(r, h), rint(r, h), rint(r, h)}
+		b = lin(a, u, 1)
+		off := [3]float64{float64(r.Range(-3, 3)), float64(r.Range(-3, 3)), float64(r.Range(-3, 3))}
+		switch r.Intn(3) {
+		case 0:
+			cc = lin(a, off, 1)
+		case 1:
+			cc = lin(b, off, 1)
+		default:
+			cc = [3]float64{rint(r, h), rint(r, h), rint(r, h)}
+		}
+		v := lin(u, dev, 1)
+		if r.Bool() {
+			v = lin(dev, u, -1)
+		}
+		if v == [3]float64{} {
+			v = u
+		}
+		d = lin(cc, v, 1)
+	case 12, 13:
+		// long, nearly (not exactly) parallel segments on a large grid whose
+		// direction has few significant bits (a power of two along one axis plus
+		// a unit-sized deviation), converging, touching or passing each other:
+		// every product the closest-approach formulas form is then exactly
+		// representable, so the answer must be accurate although sin^2 of the
+		// angle is ~2^-40
+		class = "near-parallel-exact"
+		k := uint(r.Range(9, 20))
+		ax := r.Intn(3)
+		var u [3]float64
+		u[ax] = float64(int64(1) << k)
+		if r.Bool() {
+			u[ax] = -u[ax]
+		}
+		dev := [3]float64{float64(r.Range(-2, 2)), float64(r.Range(-2, 2)), float64(r.Range(-2, 2))}
+		dev[ax] = 0
+		if dev == [3]float64{} {
+			dev[(ax+1)%3] = 1
+		}
+		sp := func() [3]float64 { return [3]float64{float64(r.Range(-3, 3)), float64(r.Range(-3, 3)), float64(r.Range(-3, 3))} }
+		a = sp()
+		b = lin(a, u, 1)
+		cc = lin(a, sp(), 1)
+		v := lin(u, dev, 1)
+		switch r.Intn(3) {
+		case 0: // second segment ends on / near the far end of the first
+			d = lin(b, sp(), float64(r.Intn(2)))
+			if d == cc {
+				d = lin(cc, v, 1)
+			}
+		case 1:
+			d = lin(cc, v, 1)
+		default: // shifted along the common direction: beyond each other's ends
+			cc = lin(cc, u, float64(r.Range(-2, 2)))
+			d = lin(cc, v, 1)
+		}
 	case 0:
 		class = "generic"
 		a, b, cc, d = pt(), pt(), pt(), pt()
@@ -362,8 +457,10 @@ func c15xyz(c *fw.Ctx, idx int) {
 		maxAbs = math.Max(maxAbs, math.Abs(v))
 	}
 	if sinSq > 0 && sinSq < 1e-2 && maxAbs > 256 {
-		c.Count("skipped_near_parallel_on_large_grid")
-		return
+		c.Count("xyz_near_parallel_on_large_grid")
+		if c15GramExact(ea, eb, ec, ed) {
+			c.Count("xyz_near_parallel_large_grid_exact_products")
+		}
 	}
 	c.Count("xyz_" + class)
 	if bothOut {
